@@ -334,11 +334,21 @@ def check_col(ctx):
     ctx.check(R, no, "n_offsets = number of offset priors", len(rr) == 1 and canon(rr[0].value) == canon(parse("len(self.v0_offsets)")), "n_offsets = %s" % (A.unparse(rr[0].value) if rr else None), key="n_offsets", nontrivial=False)
 
 
+def check_mcmc(ctx):
+    from .C07 import _Relabel
+    from .C11 import Ctxt, check_trend, TJ, Q
+    ctx.rule("C08-MCMC", "the MCMC continuation pairs the survey offsets with the same design-matrix columns as the sampler: parameter vector [v0] + offsets + v1.. "
+                         "against get_trend_design_matrix(data, ids, poly_trend) (shared implementation with C11-TREND).")
+    fn = ctx.prog.func(TJ, Q, "C08-MCMC")
+    check_trend(_Relabel(ctx, {"C11-TREND": "C08-MCMC"}), fn, Ctxt(fn))
+
+
 def run(ctx):
     res = check_lock(ctx)
     if res:
         fn, loop, merged = res
         check_order(ctx, fn, merged)
     check_col(ctx)
+    check_mcmc(ctx)
     ctx.assume("np.unique returns sorted unique values; boolean-mask row assignment touches exactly the masked rows")
     ctx.assume("RVData row order = time-sorted finite subset (decided by C15-LOCK)")
